@@ -151,7 +151,7 @@ let e2e_cfg t =
   { c_test = (get t "mode" "b" = "t"); c_count = opt_n (get t "n" "-"); c_size = opt_n (get t "s" "-");
     c_min = (match get t "mins" "-" with "-" -> N0 | x -> picos_of_decimal x);
     c_max = (if get t "mx" "-" = "0" then N0 else match get t "maxs" "-" with "-" -> u128_max | x -> picos_of_decimal x);
-    c_skip = (get t "skipx" "0" = "1");
+    c_skip = (get t "skipx" "0" = "1" || get t "eskip" "0" = "1");
     c_freq = (if get t "vcost" "-" = "-" then n_of_small 1 else n_of_string "1000000000000");
     c_prec = (match get t "prec" "-" with "-" -> n_of_small 1 | x -> n_of_string x);
     c_oh = { oh_loop = N0; oh_alloc = N0; oh_dealloc = N0; oh_realloc = N0 }; c_input_counts = qconst false }
@@ -296,8 +296,27 @@ let c19cli_check line =
       verdict (c19_e2e_sb cfg p.init p.hist sizes sa it) "C19:tuning-sequence/max_time-covers-tuning/reported-figures"
     | _ -> verdict false ("outcome:" ^ (if String.length obs > 80 then String.sub obs 0 80 else obs))
 
+(* C04 end to end, history from the event log: the rounds are the least k of the rule *)
+let c04ev_check line =
+  let (case, impl) = split_sb line in
+  let (obs, histpart) = split_bar impl in
+  let t = kv case in
+  let cfg = e2e_cfg t in
+  let r = kv obs in
+  match parse_case "" histpart with
+  | Panic p -> verdict false ("history:" ^ string_of_panic p)
+  | Ok p ->
+    match (try Some (list_n (get r "sizes" "?")) with _ -> None) with
+    | Some sizes when get r "badlog" "0" = "0" && get r "t" "?" = get t "threads" "1" ->
+      let seen = { o_done = true; o_sizes = sizes; o_calls = []; o_final_size = N0; o_samples = []; o_alloc_keys = [];
+                   o_counts = qconst []; o_stat_samples = N0; o_stat_iters = N0 } in
+      verdict (c04_sb cfg p.init p.hist seen) "C04:rounds-not-the-least-k-of-the-rule"
+    | _ -> verdict false ("outcome:" ^ (if String.length obs > 80 then String.sub obs 0 80 else obs))
+
 let dispatch mode line =
   match mode with
+  | "c04ev" -> c19cli_model line
+  | "c04ev.sb" -> c04ev_check line
   | "c19cli" -> c19cli_model line
   | "c19cli.sb" -> c19cli_check line
   | "c04cli" -> e2e_model line
